@@ -595,3 +595,14 @@ M("reg8-register-only-if-options", "C12", "_customization.py", "    @elaborate_f
 # ---------------------------------------------------------------- FMT-14 / FMT-15
 M("fmt15-leaf-marker-unconditional", "C18", TY, "        start_leaf = \"+ \" if opts.ascii_only else \"╚ \"\n", "        start_leaf = \"╚ \"\n", ["FMT-15", "FMT-1"])
 M("fmt14-memo-without-hidden", "C18", TY, "    def _format(self, opts: FormatOptions) -> List[str]:\n        start_context = \". \" if opts.ascii_only else \"├ \"\n", "    def _format(self, opts: FormatOptions) -> List[str]:\n        self.__dict__.setdefault(\"_memo\", {})\n        self._memo[(opts.ascii_only, opts.show_contexts)] = True\n        start_context = \". \" if opts.ascii_only else \"├ \"\n", "FMT-14")
+
+# ---------------------------------------------------------------- TRIO / GRN / ENG-6 (C03, C14, C15)
+M("trio1-children-filtered", "C14", GL, "            for child_task in context.obj.child_tasks\n        ]", "            for child_task in context.obj.child_tasks\n            if child_task.coro is not None\n        ]", "TRIO-1")
+M("trio1-children-not-for-task", "C14", GL, "            _extract.extract_child(child_task, for_task=True)\n            for child_task in context.obj.child_tasks", "            _extract.extract_child(child_task, for_task=False)\n            for child_task in context.obj.child_tasks", "TRIO-1")
+M("trio2-runner-strict", "C14", GL, "                        runner := value.get(\"runner\")", "                        runner := value[\"runner\"]", "TRIO-2")
+M("grn1-dead-check-after-foreign", "C15", GL, "            if not glet:  # dead or not started\n                return []\n            # otherwise a None frame means it's running\n            if glet is not greenlet_getcurrent():\n                raise RuntimeError(\n                    \"Can't dump the stack of a greenlet running in another thread\"\n                )\n",
+  "            if glet is not greenlet_getcurrent():\n                raise RuntimeError(\n                    \"Can't dump the stack of a greenlet running in another thread\"\n                )\n            if not glet:  # dead or not started\n                return []\n", "GRN-1")
+M("grn1-no-foreign-check", "C15", GL, "            if glet is not greenlet_getcurrent():\n                raise RuntimeError(\n                    \"Can't dump the stack of a greenlet running in another thread\"\n                )\n", "", "GRN-1")
+T("grn1-twin-early-return", "C15", GL, "        inner_frame = glet.gr_frame\n        outer_frame = None\n        if inner_frame is None:\n            if not glet:  # dead or not started\n                return []\n", "        inner_frame = glet.gr_frame\n        outer_frame = None\n        if inner_frame is None:\n            if bool(glet) is False:  # dead or not started\n                return []\n", accept_analysis_error=True)
+M("eng6-contexts-block-continues", "C03", EX, "            except Exception as ex:  # pragma: no cover\n                save_errors.append(ex)\n            else:\n                for context in frame.contexts:", "            except Exception as ex:  # pragma: no cover\n                save_errors.append(ex)\n                continue\n            else:\n                for context in frame.contexts:", ["ENG-6"], accept_analysis_error=True)
+M("slc4-c03-order-swapped", "C03", GL, "        return (gen.gi_frame, gen.gi_yieldfrom)", "        return (gen.gi_yieldfrom, gen.gi_frame)", "SLC-4")
